@@ -171,8 +171,11 @@ def big_cases(r, tier, mult, hw):
     the AES-NI build, one of >= 2^31 bytes) followed by a second call on the same object -- what no model run reaches: a byte
     or block count of one call kept in 32 bits.  The software path needs ~40 s for 4 GiB, so it gets one such call and
     no second pass (`again`) over the buffer."""
-    if (tier == "quick" and mult < 10) or not big_ok():
+    if not big_ok() or os.environ.get("VERIF_NO_BIG"):
         return []
+    quick = tier == "quick" and mult < 10
+    if quick and not hw:
+        return []                       # 4 GiB through the software path takes ~40 s: thorough tier only
     def one(base, again):
         k = r.range(0, 1 << 20)
         if r.chance(1, 2):
@@ -181,6 +184,8 @@ def big_cases(r, tier, mult, hw):
         tail = r.choice([1, 15, 16, 17, 33, 48, 100, 4097])
         return ["expand " + rkey(r), "bigstream %d %d %d%s" % (rnonce(r), n, tail, " again" if again else ""),
                 stream_op(r, r.choice([1, 16, 33])), stream_op(r, r.choice([0, 15, 17, 64]))]
+    if quick:
+        return [one(1 << 32, False)]    # every run: one single call of 2^32 + k bytes on the AES-NI path (~10 s)
     if hw:
         return [one(1 << 32, True), one(1 << 31, True)]
     return [one(1 << 32, False)]
@@ -315,7 +320,7 @@ RULE = ("lives of one stream object: expand (16/32-byte key) ; block* ; init non
         "single-block encryption and for stream calls >= 16 bytes, every run ; up to two init2 re-initialisations "
         "(with/without new key) ; every 10th case carries the block counter across 256 blocks, some across 4096, two per component across 65536, thorough many across 65536 and "
         "131072 (streamzero = one call of n zero bytes, summarised by FNV-1a + last 32 bytes) ; plus out-of-order op streams ; "
-        "thorough tier and failing-input search only: `bigstream` = ONE call of 2^32 + k bytes (k <= 2^20; AES-NI build also 2^31 + k) in place in a lazily "
+        "`bigstream` (AES-NI build: one case in every run; more in the thorough tier and in the failing-input search; software build: thorough only) = ONE call of 2^32 + k bytes (k <= 2^20; AES-NI build also 2^31 + k) in place in a lazily "
         "mapped buffer ending at a guard page, then a second call; judged by Spec.Ctr.streamAt on fixed windows (first 64 bytes, 64 bytes around every "
         "multiple of 2^30, last 48 bytes, the whole second call) and, on the AES-NI build, by decrypting the whole buffer in 2^20-1-byte calls. "
         "non-trivial = (>= 2 calls and at least one call straddling a 16-byte boundary) or a misaligned pointer or a bigstream")
